@@ -11,3 +11,6 @@ def run(ctx):
     # legal but unusual references (e.g. the server name taken from the outer hello)
     echcommon.run_family(ctx, ["MCEchHello_c04.cfg"], select=lambda c: c["op"] == "eoeRefsSni" and c["holds"], what="C03 eoeRefsSni",
                          sample=40 if ctx.quick else None)
+    # the names the Conn reports stay those of the reconstructed hello for the rest of the connection - in particular after a
+    # HelloRetryRequest round trip (EchConn.tla histories with a retried hello; ALPN lists in the client's order of preference)
+    echcommon.echconn_slice(ctx, lambda c: any(c["hist"][i] == ["w", "HRR"] and c["hist"][i + 1][0] == "r" for i in range(len(c["hist"]) - 1)), label="hrr flights")
